@@ -84,12 +84,13 @@ def _args(shape, a, b, c, n, flag):
 
 def closure_step(a: int, b: int, c: int, n: int, flag: bool, d1: int, d2: int, d3: int) -> None:
     """
-    pre: 0 <= n <= 3
+    pre: 0 <= n <= 5
     post: True
     """
     hlib.enter(locals())
     name, shape = hlib.PARAM["fn"], hlib.PARAM["shape"]
-    n = hlib.concrete(n, 0, 3)
+    hlib.assume(hlib.deep() or n <= 3)
+    n = hlib.concrete(n, 0, 5)
     args = _args(shape, a, b, c, n, flag)
     saved = functions.random
     functions.random = RandStub([d1, d2, d3], 0.5)
@@ -181,4 +182,35 @@ def api_plain(a: int, flag: bool) -> None:
         assert is_plain(out[1]), "program %r obtained a value that is not plain data / a builtin / a lambda: %s" % (text, type(out[1]).__name__)
     for k, v in names.items():
         assert is_plain(v), "program %r stored a non-plain object in names[%r]" % (text, k)
+    hlib.done()
+
+
+def builtin_on_builtin(j: int, shape: int) -> None:
+    """
+    pre: 0 <= j < 60 and 0 <= shape <= 4
+    post: True
+    """
+    # the builtins themselves are values a program can name: every builtin applied to every builtin (as the first
+    # argument, alone or with an index / key / a second builtin) yields plain data, a builtin, a lambda, or an Exception
+    hlib.enter(locals())
+    name = hlib.PARAM["fn"]
+    vals = list(FUNCTIONS.values())
+    j, shape = hlib.concrete(j, 0, 59), hlib.concrete(shape, 0, 4)
+    hlib.assume(j < len(vals))
+    g = vals[j]
+    args = [(g,), (g, 1), (g, 'a'), (g, g), ([g], 0)][shape]
+    res, raised = None, None
+    with hlib.native():
+        saved = functions.random
+        functions.random = RandStub([0, 0, 0], 0.5)
+        try:
+            try:
+                res = FUNCTIONS[name](*args)
+            except Exception as e:
+                raised = e
+        finally:
+            functions.random = saved
+        ok = raised is not None or is_plain(res)
+    assert ok, "builtin %s applied to the builtin %r returned a %s, which is not plain data / a builtin / a lambda" % (
+        name, list(FUNCTIONS)[j], type(res).__name__)
     hlib.done()
